@@ -90,7 +90,10 @@ def run(ctx):
     # (separate from the validation above: the Gallina models of the individually PROVED compilers are compared with
     # the real compilers' output on the same cases; a mismatch is model drift, the validators above decide the property)
     failed_idx = set(c.idx for c in live if reports[c.idx][1] != 0)
+    import time as _time0
+    _t0la = _time0.time()
     la_cov = layera.run(ctx, cases, validator_failed=failed_idx)
+    la_cov.setdefault("layerA_seconds", {})["layera"] = round(_time0.time() - _t0la, 1)
     # further per-compiler Layer A correspondences, one module per compiler (harness/layera_<x>.py: run(ctx, cases,
     # validator_failed) -> dict of evidence keys prefixed layerA_<x>_); a module that is absent is skipped
     import importlib
@@ -99,7 +102,10 @@ def run(ctx):
             _mod = importlib.import_module("harness." + _m)
         except ModuleNotFoundError:
             continue
+        import time as _time
+        _t = _time.time()
         la_cov.update(_mod.run(ctx, cases, validator_failed=failed_idx))
+        la_cov.setdefault("layerA_seconds", {})[_m] = round(_time.time() - _t, 1)
     # ------------------------------------------------------------------ end of Layer A block ----------------------
     if not ok_proofs:
         ctx.proof_broken()
